@@ -9,7 +9,7 @@ for m in sorted(glob.glob('/verif/seeded/*/meta.json')):
     h = d.get('history', 'first run')
     if h.upper().startswith('MISSED') or 'MISSED' in h:
         miss += 1
-    rows.append(f"| `{name}` | {d.get('needs_to_manifest','')} | {', '.join(d.get('caught_by', []))} | {h} |")
+    rows.append(f"| `{name}` | {d.get('needs_to_manifest','')} | {', '.join(d.get('caught_by', [])) or '— (not claimed)'} | {h} |")
 tbl = "| seed | needs, in order to manifest | caught by (quick) | history |\n|---|---|---|---|\n" + "\n".join(rows) + "\n"
 p = '/verif/DESIGN.md'
 s = open(p).read()
